@@ -183,5 +183,37 @@ row(props=["C17"], func="pkg/application/todo/astitodo.IsTodoIdentifier", params
 row(props=["C17"], func="pkg/application/todo/astitodo.IsTodoIdentifier", params=["s"], kind="returns", result=0,
     expr='ite(hasPrefix(upper(s), "TODO"), 4, ite(hasPrefix(upper(s), "FIXME"), 5, 0))', what="length of the recognised marker")
 
+
+# ------------------------------------------------------------------ C12 (annotation / verb tables)
+API = "pkg/infrastructure/ast/ast_java/ast_api_java."
+NAME = "GetText(QualifiedName(ctx))"
+CTRL = '(%s == "RestController" || %s == "Controller")' % (NAME, NAME)
+MAPPING = "(" + " || ".join('%s == "%s"' % (NAME, n) for n in ["RequestMapping", "GetMapping", "PutMapping", "PostMapping", "DeleteMapping"]) + ")"
+for verb, names in [("GET", ["GetMapping", "RequestMethod.GET", "GET"]), ("PUT", ["PutMapping", "RequestMethod.PUT", "PUT"]),
+                    ("POST", ["PostMapping", "RequestMethod.POST", "POST"]), ("DELETE", ["DeleteMapping", "RequestMethod.DELETE", "DELETE"])]:
+    row(props=["C12"], func=API + "addApiMethod", params=["name"], kind="emits", target="globalstore:" + API + "currentRestAPI.HttpMethod", tag={"value": verb}, total=4,
+        when=" || ".join('name == "%s"' % n for n in names), what="HTTP verb %s ⇔ annotation / method= value in {%s}" % (verb, ", ".join(names)))
+row(props=["C12"], func=API + "(JavaAPIListener).EnterAnnotation", params=["s", "ctx"], kind="emits", target="globalstore:" + API + "isSpringRestController", tag={}, total=1,
+    when="QualifiedName(ctx) != nil && " + CTRL, fields={"value": "true"}, what="controller ⇔ annotated @RestController or @Controller")
+row(props=["C12"], func=API + "(JavaAPIListener).EnterAnnotation", params=["s", "ctx"], kind="emits", target="globalstore:" + API + "hasEnterRestController", tag={}, total=1,
+    when="QualifiedName(ctx) != nil && (%s || global(\"%sisSpringRestController\")) && %s" % (CTRL, API, MAPPING), fields={"value": "true"},
+    what="a handler entry is started ⇔ mapping annotation inside a controller")
+row(props=["C12"], func=API + "(JavaAPIListener).EnterAnnotation", params=["s", "ctx"], kind="callguard", callee=API + "buildBaseApiUrlString",
+    expr="QualifiedName(ctx) != nil && (%s || global(\"%sisSpringRestController\")) && !global(\"%shasEnterClass\")" % (CTRL, API, API),
+    what="the base path is taken from class-level annotations of a controller only")
+
+# ------------------------------------------------------------------ C01 / C02 / C17 extras
+row(props=["C01"], func="pkg/adapter/cocafile.GetFilesWithFilter$1", params=["path", "fi", "err"], kind="returns", expr="nil",
+    what="the directory walk is never cut short: the callback returns nil for every entry")
+row(props=["C01"], func="pkg/adapter/cocafile.GetFilesWithFilter$1", params=["path", "fi", "err"], kind="emits", target="free:files", tag={}, total=1,
+    when='!(call("deref", free_gitIgnore) != nil && call("github.com/sabhiram/go-gitignore.(GitIgnore).MatchesPath", call("deref", free_gitIgnore), path)) && !contains(path, "testData") && call("dyn", call("deref", free_filter), path)',
+    fields={"<elem>": "path"}, what="a file is selected ⇔ not git-ignored, not under testData, accepted by the filter")
+TT = "pkg/infrastructure/ast/ast_java."
+row(props=["C02"], func=TT + "ParseTargetType", params=["t"], kind="returns",
+    expr='ite(hasSuffix(String(call("reflect.TypeOf", t)), "MethodCallContext"), global("%scurrentClz"), ite(lookup(global("%smapFields"), t) != "", lookup(global("%smapFields"), t), ite(lookup(global("%sformalParameters"), t) != "", lookup(global("%sformalParameters"), t), ite(lookup(global("%slocalVars"), t) != "", lookup(global("%slocalVars"), t), t))))' % ((TT,) * 7),
+    what="receiver type: field, then parameter, then local variable, else the text itself")
+row(props=["C17"], func="pkg/application/todo.(TodoApp).AnalysisPath$1", params=["path"], kind="returns",
+    expr='exists(call("deref", free_filters), ext, hasSuffix(path, ext))', what="a file is scanned ⇔ its path ends with one of the selected extensions")
+
 json.dump({"e5": rows}, open(os.path.join(os.path.dirname(os.path.dirname(os.path.abspath(__file__))), "spec", "e5.json"), "w"), indent=1, ensure_ascii=False)
 print(len(rows), "rows")
